@@ -4,6 +4,8 @@ import (
 	"context"
 	"encoding/json"
 	"fmt"
+	"github.com/ovn-org/libovsdb/cache"
+	"reflect"
 	"strings"
 	"sync"
 	"testing"
@@ -288,6 +290,27 @@ func TestFixedC20EnumNames(t *testing.T) {
 	}
 }
 
+// TestFixedC20EnumSeparators: single-word enum values with leading or trailing separator
+// characters, and a schema containing a back quote.
+func TestFixedC20EnumSeparators(t *testing.T) {
+	text := "{\"name\":\"DB\",\"version\":\"1.0.0\",\"tables\":{\"T0\":{\"columns\":{" +
+		"\"mode\":{\"type\":{\"key\":{\"type\":\"string\",\"enum\":[\"set\",[\"~tilde\",\"$var\",\"up-\",\"`tick`\",\"rx+tx\"]]}}}}}}}"
+	var schema ovsdb.DatabaseSchema
+	if err := json.Unmarshal([]byte(text), &schema); err != nil {
+		t.Fatal(err)
+	}
+	gen, _ := modelgen.NewGenerator()
+	table := schema.Tables["T0"]
+	args := modelgen.GetTableTemplateData("p", "T0", &table)
+	args.WithEnumTypes(true)
+	if _, err := gen.Format(modelgen.NewTableTemplate(), args); err != nil {
+		t.Errorf("VERIF-FAIL property=C20 class=generate.error: table with enum values carrying separators: %v", err)
+	}
+	if _, err := gen.Format(modelgen.NewDBTemplate(), modelgen.GetDBTemplateData("p", schema)); err != nil {
+		t.Errorf("VERIF-FAIL property=C20 class=generate.error: model.go for a schema containing a back quote: %v", err)
+	}
+}
+
 // ---- open finding ----
 
 func TestFindingC01V1DefaultReset(t *testing.T) {
@@ -350,4 +373,26 @@ func TestFixedC18CloseConnectRace(t *testing.T) {
 			c.Disconnect()
 		}
 	}
+}
+
+// TestFixedC18PurgeAccessorRace (run with -race): the cache's database model is replaced by
+// Purge (what a reconnect does) while API calls read it through DatabaseModel()/Mapper().
+func TestFixedC18PurgeAccessorRace(t *testing.T) {
+	w := c16World(t)
+	tc, err := cache.NewTableCache(w.DBModel, nil, nil)
+	if err != nil {
+		t.Fatal(err)
+	}
+	done := make(chan struct{})
+	go func() {
+		defer close(done)
+		for i := 0; i < 200; i++ {
+			tc.Purge(w.DBModel)
+		}
+	}()
+	for i := 0; i < 200; i++ {
+		_ = tc.DatabaseModel().FindTable(reflect.TypeOf(w.NewModel("T0")))
+		_ = tc.Mapper().Schema.Name
+	}
+	<-done
 }
